@@ -57,7 +57,7 @@ def lookup(m):
     return d
 
 
-def api_objects(m, order=None, wrap=None, share=False):
+def api_objects(m, order=None, wrap=None, share=False, int_zero=False):
     """(pair Potential list, EAMPotential list[, dipoles, quadrupoles]) through the Python API;
     element order = `order` or m['elements'] restricted to the element set"""
     b = build_api.Builder(m["env"])
@@ -73,24 +73,37 @@ def api_objects(m, order=None, wrap=None, share=False):
                 built[key] = plain(pd)
             return built[key]
         b.potdef = shared_potdef
+    if int_zero:
+        # plain Python callables as users write them: "if r == 0: return 0" - an int where the function vanishes,
+        # floats elsewhere (embedding and density functions need no derivatives)
+        inner = b.potdef
+
+        def int_zero_potdef(pd):
+            f = inner(pd)
+
+            def g(r):
+                v = f(r)
+                return 0 if v == 0 else v
+            return g
     els = order or [e for e in m["elements"] if e in element_set(m)]
     lk = lookup(m)
     zero = ap.potentialforms.zero()
     eams = []
     for e in els:
         Z, mass, a, lat = metadata(m, e)
-        emb = b.potdef(lk["embed"][e]) if e in lk["embed"] else zero
+        fpot = int_zero_potdef if int_zero else b.potdef
+        emb = fpot(lk["embed"][e]) if e in lk["embed"] else zero
         if wrap is not None and e in lk["embed"]:
             emb = wrap("embed", (e,), emb)
         if "density_fs" in m:
             dens = {}
             for o in els:
                 pd = lk["density_fs"].get((e, o))
-                dens[o] = b.potdef(pd) if pd is not None else zero
+                dens[o] = fpot(pd) if pd is not None else zero
                 if wrap is not None and pd is not None:
                     dens[o] = wrap("density_fs", (e, o), dens[o])
         else:
-            dens = b.potdef(lk["density"][e]) if e in lk["density"] else zero
+            dens = fpot(lk["density"][e]) if e in lk["density"] else zero
             if wrap is not None and e in lk["density"]:
                 dens = wrap("density", (e,), dens)
         eams.append(ap.EAMPotential(e, Z, mass, emb, dens, a, lat))
